@@ -136,18 +136,70 @@ theorem add_sub_phys {db : Db} (hdb : db.AllWF) {op : SameOp} {q1 q2 q : Quantit
       unfold baseMag; rw [← hv, ← hw]
       cases op <;> simp [applySame] <;> ring
 
-/-
-Not proved (full statement kept; the theorems above and below are conditional on `opSame … = .ok …`):
-  theorem add_sub_succeeds (h1 : Operand db q1) (h2 : Operand db q2)
-      (hd : ∀ qt, dim db qt q1.entries = dim db qt q2.entries)
-      (n1 n2 : every quantity type that occurs in q1 / q2 has a non-zero exponent (C04.no_zero_dimension)) :
-      ∃ v, opSame db op q1 q2 v1 v2 = .ok (q1, v)
-What is missing: the characterisation of the fold `joined` ((u, t) ∈ joined L ↔ u occurs in L ∧ t = unitTotal u L)
-that turns `unitTotal_eq_of_dims` into `sameSet (joined e1) (joined e2') = true`.  `opSame_shape` already shows
-that nothing else can fail (the matching, both `ObtainQuantity` calls succeed on known units) and
-`add_sub_value_simple` is an unconditional equation for simple operands; success on derived operands of equal
-dimensions is observed by the correspondence (streams compatible-d0 … d5), failure on different dimensions too.
--/
+/-! ### matching dimensions: the operation succeeds -/
+
+/-- **for matching dimensions a ± b succeeds**, with the left operand's quantity (operands in which every
+quantity type that occurs has a non-zero exponent: `NonZeroDims`, what `C04.no_zero_dimension` proves of every
+product, quotient and power).  The comparison of the joined composing units in the code is by unit symbol;
+it agrees with the comparison of dimensions because after matching a quantity type has one unit. -/
+theorem add_sub_succeeds {db : Db} (hdb : db.AllWF) (op : SameOp) {q1 q2 : Quantity} (v1 v2 : Rat)
+    (h1 : Operand db q1) (h2 : Known db q2) (n1 : NonZeroDims db q1) (n2 : NonZeroDims db q2)
+    (hd : ∀ qt, dim db qt q1.entries = dim db qt q2.entries) :
+    ∃ v, opSame db op q1 q2 v1 v2 = .ok (q1, v) := by
+  obtain ⟨used, e2', w2, hce, hgood, _, _, hshape⟩ :=
+    opSame_shape hdb (fun _ => True) v2 h1 h2 (fun _ _ => trivial) (fun _ _ => trivial)
+  rw [hshape op v1]
+  split
+  · exact ⟨_, rfl⟩
+  · have hs : sameSet (joined q1.entries) (joined e2') = true := sameSet_of_dims hgood hce hd n1 n2
+    refine ⟨applySame op v1 w2, ?_⟩
+    unfold withValue pickSame
+    simp only [hs, ↓reduceIte]
+
+/-- conversely, **different dimensions are rejected** (`InvalidOperationError`) whenever both operands have
+units: if the operation succeeds on two non-empty operands of this kind, their dimensions are equal -/
+theorem add_sub_ok_dims {db : Db} (hdb : db.AllWF) {op : SameOp} {q1 q2 q : Quantity} {v1 v2 v : Rat}
+    (h1 : Operand db q1) (h2 : Known db q2) (ne1 : q1.entries ≠ []) (ne2 : q2.entries ≠ [])
+    (h : opSame db op q1 q2 v1 v2 = .ok (q, v)) (qt : Sym) :
+    dim db qt q1.entries = dim db qt q2.entries := by
+  obtain ⟨used, e2', w2, hce, hgood, _, _, hshape⟩ :=
+    opSame_shape hdb (fun _ => True) v2 h1 h2 (fun _ _ => trivial) (fun _ _ => trivial)
+  rw [← dim_of_catExp _ _ hce]
+  apply dim_eq_of_totals hgood
+  intro u
+  rw [hshape op v1] at h
+  split at h
+  · rename_i heq
+    have he : q1.entries = q2.entries := by
+      simp only [Quantity.eqv, Bool.and_eq_true, beq_iff_eq] at heq; exact heq.1
+    -- equal quantities: the matching of the right operand against the left one changes no unit total
+    have hd : ∀ qt, dim db qt q1.entries = dim db qt e2' := fun qt => by rw [he, dim_of_catExp _ _ hce]
+    exact unitTotal_eq_of_dims hgood hd u
+  · unfold withValue at h
+    split at h
+    · cases h
+    · rename_i qq hp
+      unfold pickSame at hp
+      have hne2 : e2' ≠ [] := by
+        intro h0; rw [h0] at hce; simp at hce; exact ne2 hce
+      split at hp
+      · rename_i hs
+        -- the two joined lists have the same members
+        unfold sameSet at hs
+        simp only [Bool.and_eq_true, List.all_eq_true, List.contains_iff_mem] at hs
+        by_cases hex : ∃ e ∈ q1.entries, e.unit = u
+        · have := hs.1 (u, unitTotal u q1.entries) ((mem_joined _ _ _).mpr ⟨hex, rfl⟩)
+          exact ((mem_joined _ _ _).mp this).2
+        · by_cases hex2 : ∃ e ∈ e2', e.unit = u
+          · have := hs.2 (u, unitTotal u e2') ((mem_joined _ _ _).mpr ⟨hex2, rfl⟩)
+            exact absurd ((mem_joined _ _ _).mp this).1 hex
+          · rw [unitTotal_zero_of_notin u _ (fun e he h => hex ⟨e, he, h⟩),
+              unitTotal_zero_of_notin u _ (fun e he h => hex2 ⟨e, he, h⟩)]
+      · split at hp
+        · rename_i hemp; exact absurd ((joined_isEmpty_iff _).mp hemp) ne1
+        · split at hp
+          · rename_i hemp; exact absurd ((joined_isEmpty_iff _).mp hemp) hne2
+          · cases hp
 
 /-! ### hence: (a+b)-b denotes a, a+b and b+a denote the same amount -/
 
